@@ -72,7 +72,7 @@ def main():
         env = dict(os.environ, QBV_REPO=dst, QBV_EVIDENCE_DIR=os.path.join(SCRATCH, "evidence"))
         r = subprocess.run([os.path.join(VERIF, "check"), m.get("prop", "all"), "quick"], cwd=VERIF, env=env, stdout=subprocess.PIPE, stderr=subprocess.STDOUT, text=True)
         out = r.stdout
-        fired = [l for l in out.splitlines() if m.get("expect", "] ") in l and re.search(r": C\d+\.[a-z] \[", l)]
+        fired = [l for l in out.splitlines() if m.get("expect", "]:") in l and re.search(r": C\d+\.[a-z] \[", l)]
         status = "ok"
         if "ENGINE-ERROR" in out:
             status = "ENGINE-ERROR (mutant does not compile?)"
@@ -86,7 +86,7 @@ def main():
         if "--challenge" in sys.argv and status == "ok":
             print("   caught by: " + "; ".join(sorted({re.search(r"\[([^\]]+)\]", l).group(1) for l in fired}))[:300])
         if status != "ok":
-            print("   expected a report containing: %s" % m["expect"])
+            print("   expected a report containing: %s" % m.get("expect", "(any obligation)"))
             print("   " + "\n   ".join(out.splitlines()[-8:]))
         results.append((m["id"], status))
     print("self-test: %d ok, %d failed" % (ok, bad))
